@@ -185,6 +185,7 @@ type runOpts struct {
 	SubdirRewrites map[string]string
 	Subdirs        []string
 	Package        string // proto package (default "protoconf")
+	DryRun         options.DryRun
 }
 
 func (o runOpts) pkg() string {
@@ -235,7 +236,7 @@ func (w *workspace) genConf(o runOpts, paths ...string) error {
 	co := &options.ConfOption{
 		Input: &options.ConfInputOption{ProtoPaths: append([]string{w.Proto}, o.ProtoPaths...), ProtoFiles: []string{filepath.Join(w.Proto, "*.proto")}, Formats: fmts, Subdirs: o.Subdirs, SubdirRewrites: o.SubdirRewrites},
 		Output: &options.ConfOutputOption{Formats: outf, Pretty: o.Pretty, EmitUnpopulated: o.EmitUnpop, EmitTimezones: o.EmitTimezones,
-			UseProtoNames: o.UseProtoNames, UseEnumNumbers: o.UseEnumNumbers},
+			UseProtoNames: o.UseProtoNames, UseEnumNumbers: o.UseEnumNumbers, DryRun: o.DryRun},
 	}
 	setters := []options.Option{options.Conf(co), options.Log(quietLog), options.Lang(lang)}
 	loc := o.LocationName
